@@ -47,8 +47,17 @@ func toLimbs(v uint64) limbs {
 }
 
 type acctRec struct {
-	Name  string   `json:"name"`
-	Progs []string `json:"progs"`
+	Name   string   `json:"name"`
+	Progs  []string `json:"progs"`
+	Quorum int      `json:"quorum"`
+	NKeys  int      `json:"nkeys"`
+}
+
+// cosignRec: which key holders of a multi-signature account sign, in which order (1-based key
+// positions in the account's key list); one holder signs per Sign round.
+type cosignRec struct {
+	Acct  string `json:"acct"`
+	Order []int  `json:"order"`
 }
 type fundRec struct {
 	ID    string `json:"id"`
@@ -77,25 +86,49 @@ type txRec struct {
 	Outputs []outRec `json:"outputs"`
 }
 type caseRec struct {
-	ID       int       `json:"id"`
-	Shape    string    `json:"shape"`
-	Accounts []acctRec `json:"accounts"`
-	Funding  []fundRec `json:"funding"`
-	Actions  []actRec  `json:"actions"`
-	Built    bool      `json:"built"`
-	Signed   bool      `json:"signed"`
-	Valid    bool      `json:"valid"`
-	BuildErr string    `json:"builderr"`
-	SignErr  string    `json:"signerr"`
-	ValidErr string    `json:"validerr"`
-	Panic    string    `json:"panic"`
-	Tx       txRec     `json:"tx"`
+	ID       int         `json:"id"`
+	Shape    string      `json:"shape"`
+	Accounts []acctRec   `json:"accounts"`
+	Funding  []fundRec   `json:"funding"`
+	Actions  []actRec    `json:"actions"`
+	Cosign   []cosignRec `json:"cosigners"`
+	Built    bool        `json:"built"`
+	Signed   bool        `json:"signed"`
+	Valid    bool        `json:"valid"`
+	BuildErr string      `json:"builderr"`
+	SignErr  string      `json:"signerr"`
+	ValidErr string      `json:"validerr"`
+	Panic    string      `json:"panic"`
+	Tx       txRec       `json:"tx"`
 }
 
 type acct struct {
-	name  string
-	acc   *account.Account
-	addrs []*account.CtrlProgram
+	name   string
+	acc    *account.Account
+	addrs  []*account.CtrlProgram
+	keys   []chainkd.XPub
+	quorum int
+	plans  [][]int // every ordered quorum-subset of the key positions (1-based)
+}
+
+// orderedSubsets returns all sequences of m distinct elements of 1..n.
+func orderedSubsets(n, m int) [][]int {
+	if m == 0 {
+		return [][]int{{}}
+	}
+	var out [][]int
+	for _, s := range orderedSubsets(n, m-1) {
+		for k := 1; k <= n; k++ {
+			dup := false
+			for _, x := range s {
+				dup = dup || x == k
+			}
+			if !dup {
+				out = append(out, append(append([]int{}, s...), k))
+			}
+		}
+	}
+	return out
 }
 
 type utxo struct {
@@ -139,7 +172,7 @@ func setup() *lchain.Env {
 		vh.Fatal("hsm: %v", err)
 	}
 	var xpubs []chainkd.XPub
-	for i := 0; i < 5; i++ {
+	for i := 0; i < 12; i++ {
 		x, _, err := hsm.XCreate(fmt.Sprintf("key%d", i), password, "en")
 		if err != nil {
 			vh.Fatal("xcreate: %v", err)
@@ -155,7 +188,7 @@ func setup() *lchain.Env {
 		if err != nil {
 			vh.Fatal("create account: %v", err)
 		}
-		ac := &acct{name: name, acc: a}
+		ac := &acct{name: name, acc: a, keys: keys, quorum: quorum, plans: orderedSubsets(len(keys), quorum)}
 		for i := 0; i < 3; i++ {
 			cp, err := mgr.CreateAddress(a.ID, i == 2)
 			if err != nil {
@@ -167,7 +200,10 @@ func setup() *lchain.Env {
 	}
 	mk("acc1", xpubs[:1], 1)
 	mk("acc2", xpubs[1:4], 2)
-	mk("acc3", xpubs[4:], 1)
+	mk("acc3", xpubs[4:5], 1)
+	mk("acc4", xpubs[5:7], 1)
+	mk("acc5", xpubs[7:9], 2)
+	mk("acc6", xpubs[9:12], 3)
 	assetIDs["BTM"] = *consensus.BTMAssetID
 	assetIDs["A1"] = bc.NewAssetID([32]byte{0xa1, 1, 2, 3})
 	assetIDs["A2"] = bc.NewAssetID([32]byte{0xa2, 9, 8, 7})
@@ -231,8 +267,12 @@ func jsonAction(m map[string]interface{}) []byte {
 // signFn: the first nReal cases sign through the real pseudo-HSM (scrypt-decrypts the key
 // file on every signature); later ones load each key once through the HSM and then do the
 // same derive+sign the HSM does (XSign = LoadChainKDKey + Derive + Sign).
-func signer(real bool) txbuilder.SignFunc {
+func signer(real bool, turn map[chainkd.XPub]int, round int) txbuilder.SignFunc {
 	return func(_ context.Context, xpub chainkd.XPub, path [][]byte, data [32]byte, pw string) ([]byte, error) {
+		// only the key holder whose turn it is signs in this round (the others do not have the key)
+		if r, ok := turn[xpub]; !ok || r != round {
+			return nil, fmt.Errorf("key holder does not sign in this round")
+		}
 		if real {
 			return hsm.XSign(xpub, path, data[:], pw)
 		}
@@ -253,17 +293,32 @@ func signer(real bool) txbuilder.SignFunc {
 
 func oneCase(id int, realHSM bool) *caseRec {
 	c := &caseRec{ID: id, Accounts: []acctRec{}, Funding: []fundRec{}, Actions: []actRec{}, Tx: txRec{Inputs: []string{}, Outputs: []outRec{}}}
-	for _, a := range accts {
-		r := acctRec{Name: a.name}
+	c.Cosign = []cosignRec{}
+	turn := map[chainkd.XPub]int{}
+	for k, a := range accts {
+		r := acctRec{Name: a.name, Quorum: a.quorum, NKeys: len(a.keys)}
 		for _, cp := range a.addrs {
 			r.Progs = append(r.Progs, hex.EncodeToString(cp.ControlProgram))
 		}
 		c.Accounts = append(c.Accounts, r)
+		// co-signers: the plans are walked systematically with the case number, so that every ordered
+		// quorum-subset of every account's key holders occurs
+		plan := a.plans[(id/(k+1)+k)%len(a.plans)]
+		if len(a.keys) > 1 {
+			c.Cosign = append(c.Cosign, cosignRec{Acct: a.name, Order: plan})
+		}
+		for r, pos := range plan {
+			turn[a.keys[pos-1]] = r
+		}
 	}
-	// ---- funding set
+	// ---- funding set: the spending accounts and up to two others
+	nsp := 1 + rng.Intn(2)
+	perm := rng.Perm(len(accts))
+	spenders := perm[:nsp]
 	var utxos []*utxo
 	byAA := map[string][]*utxo{}
-	for _, a := range accts {
+	for _, ai := range perm[:nsp+1+rng.Intn(2)] {
+		a := accts[ai]
 		for _, as := range []string{"BTM", "A1", "A2"} {
 			n := rng.Intn(4)
 			if as == "BTM" {
@@ -300,8 +355,7 @@ func oneCase(id int, realHSM bool) *caseRec {
 	shape := ""
 	unfundable := rng.Intn(12) == 0
 	spent := map[string]bool{}
-	nsp := 1 + rng.Intn(2)
-	for _, ai := range rng.Perm(len(accts))[:nsp] {
+	for _, ai := range spenders {
 		a := accts[ai]
 		for _, as := range []string{"BTM", "A1", "A2"} {
 			k := a.name + "/" + as
@@ -451,7 +505,7 @@ func oneCase(id int, realHSM bool) *caseRec {
 		// one Sign call adds one signature per multi-signature witness (by design: co-signers sign in
 		// turn), so the template is passed to Sign once per required signature, as the co-signers would
 		for round := 0; round < 3 && !c.Signed; round++ {
-			if err := txbuilder.Sign(context.Background(), tpl, password, signer(realHSM)); err != nil {
+			if err := txbuilder.Sign(context.Background(), tpl, password, signer(realHSM, turn, round)); err != nil {
 				c.SignErr = err.Error()
 				break
 			}
@@ -502,7 +556,7 @@ func main() {
 			panics++
 		}
 		for _, a := range c.Actions {
-			if a.Kind == "spend" && a.Acct == "acc2" {
+			if a.Kind == "spend" && a.Acct != "acc1" && a.Acct != "acc3" {
 				multisig++
 				break
 			}
